@@ -346,9 +346,17 @@ class Analyzer:
             return self.prog.fns[ev.key]
         return None
 
-    def ipaths(self, fn, inline=None, depth=2, max_paths=20000, start=None, this=('this',), params=None, _stack=()):
+    IMMEDIATE = ('simgrid::kernel::actor::simcall_answered', 'simgrid::kernel::actor::simcall_blocking',
+                 'simgrid::kernel::actor::simcall_object_access')
+
+    def ipaths(self, fn, inline=None, depth=2, max_paths=20000, start=None, this=('this',), params=None, byvalue=False,
+               lambdas=False, _stack=(), _tag=''):
         """interprocedural paths: list of (events, exit_kind).  `inline(ev, callee_fn)` says whether a resolved call is
-        expanded; expansion substitutes the callee's `this` and parameters by the caller's normal forms."""
+        expanded.  The callee's `this` becomes the receiver's normal form.  Parameters are substituted by name
+        (byvalue=False: the caller's argument terms) or bound by value (byvalue=True: the 'enter' event carries
+        .lhs = tuple of fresh parameter variables and .args = the caller-side terms, to be assigned by the
+        interpreter).  With lambdas=True a lambda passed to simcall_answered/simcall_blocking is expanded in place
+        (the kernel runs it before the caller continues)."""
         v = self.view(fn)
         norm = ex.Norm(fn, this=this, params=params) if (this != ('this',) or params) else v.norm
         res = []
@@ -356,32 +364,46 @@ class Analyzer:
             evs = v.path_events(p, norm)
             alts = [([], None)]
             for ev in evs:
-                callee = None
-                if ev.kind == 'call' and inline is not None and depth > 0:
-                    callee = self.resolve(ev)
-                    if callee is not None and (callee['key'] in _stack or not inline(ev, callee)):
-                        callee = None
-                if callee is None:
+                targets = []
+                if ev.kind == 'call' and depth > 0:
+                    if inline is not None:
+                        callee = self.resolve(ev)
+                        if callee is not None and callee['key'] not in _stack and inline(ev, callee):
+                            targets.append((callee, ev.obj if ev.obj is not None else ('this',), ev.args, True))
+                    if lambdas and ev.q in self.IMMEDIATE:
+                        for a in ev.args:
+                            if a[0] == 'lambda' and a[1] in self.prog.fns and a[1] not in _stack:
+                                targets.append((self.prog.fns[a[1]], this, (), False))
+                if not targets:
                     for a in alts:
                         if a[1] is None:
                             a[0].append(ev)
                     continue
-                pm = {i: a for i, a in enumerate(ev.args)}
-                sub = self.ipaths(callee, inline, depth - 1, max_paths, this=ev.obj if ev.obj is not None else ('this',),
-                                  params=pm, _stack=_stack + (fn['key'],))
-                nalts = []
-                for a in alts:
-                    if a[1] is not None:
-                        nalts.append(a)
-                        continue
-                    for sevs, sexit in sub:
-                        ne = a[0] + [Ev('enter', q=callee['q'], key=callee['key'], fn=ev.fn, line=ev.line, obj=ev.obj,
-                                        args=ev.args, eid=ev.eid, node=ev.node)] + sevs + \
-                             [Ev('leave', q=callee['q'], key=callee['key'], fn=ev.fn, line=ev.line)]
-                        nalts.append((ne, sexit if sexit in ('noreturn', 'throw') else None))
-                        if len(nalts) > max_paths:
-                            raise TooManyPaths('%s: more than %d interprocedural paths' % (fn['key'], max_paths))
-                alts = nalts
+                for (callee, cthis, cargs, is_call) in targets:
+                    if byvalue:
+                        tag = '%s#%d' % (callee['q'].rsplit('::', 1)[-1], len(_stack) + 1)
+                        pvars = tuple(('var', 'iparm', tag + '.' + pp['n'], 0) for pp in callee['params'])
+                        pm = {i: pv for i, pv in enumerate(pvars)}
+                    else:
+                        pvars = ()
+                        pm = {i: a for i, a in enumerate(cargs)}
+                    sub = self.ipaths(callee, inline, depth - 1, max_paths, this=cthis, params=pm, byvalue=byvalue,
+                                      lambdas=lambdas, _stack=_stack + (fn['key'],))
+                    nalts = []
+                    for a in alts:
+                        if a[1] is not None:
+                            nalts.append(a)
+                            continue
+                        for sevs, sexit in sub:
+                            pre = [] if not is_call else []
+                            ne = a[0] + ([ev] if not is_call else []) + \
+                                [Ev('enter', q=callee['q'], key=callee['key'], fn=ev.fn, line=ev.line, obj=cthis, lhs=pvars,
+                                    args=tuple(cargs), eid=ev.eid, node=ev.node)] + sevs + \
+                                [Ev('leave', q=callee['q'], key=callee['key'], fn=ev.fn, line=ev.line)]
+                            nalts.append((ne, sexit if sexit in ('noreturn', 'throw') else None))
+                            if len(nalts) > max_paths:
+                                raise TooManyPaths('%s: more than %d interprocedural paths' % (fn['key'], max_paths))
+                    alts = nalts
             for a in alts:
                 res.append((a[0], a[1] if a[1] is not None else p.exit))
         return res
